@@ -4,6 +4,7 @@ import importlib
 import os
 import sys
 import time
+import warnings
 
 from engine import run
 
@@ -22,6 +23,7 @@ def do_check(prop, tier, seed):
 
 
 def main():
+    warnings.simplefilter('ignore')
     ap = argparse.ArgumentParser(prog='vf')
     sub = ap.add_subparsers(dest='cmd', required=True)
     c = sub.add_parser('check')
